@@ -8,12 +8,26 @@
 import Bubus.Model.Basic
 namespace Bubus
 
-/-- `event_are_all_children_complete`: every child reachable through `event_children` has status
-    `completed`. The code uses a visited set; the fuel (≥ number of events) gives the same answer
-    (every reachable event is reachable along a simple path). -/
-def allChildrenComplete (w : World) : Nat → EId → Bool
-  | 0, _ => true
-  | fuel+1, e => (w.ev e).children.all fun c => (w.ev c).status == .completed && allChildrenComplete w fuel c
+/-- the traversal of `event_are_all_children_complete`: a work list of events whose children are still to be looked at and
+    the set of events already visited (the code's `_visited`); an event is expanded once, every child of an expanded event
+    must have status `completed`. The fuel bounds the number of steps (one per work-list entry). -/
+def allDoneFrom (w : World) : Nat → List EId → List EId → Bool
+  | 0, _, _ => true
+  | _ + 1, [], _ => true
+  | fuel + 1, e :: rest, seen =>
+    if seen.contains e then allDoneFrom w fuel rest seen
+    else if (w.ev e).children.all (fun c => (w.ev c).status == .completed) then
+      allDoneFrom w fuel ((w.ev e).children ++ rest) (e :: seen)
+    else false
+
+/-- enough steps for the whole traversal: one per event plus one per entry of any `event_children` list -/
+def walkBudget (w : World) : Nat :=
+  (List.range w.ne).foldl (fun n e => n + (w.ev e).children.length + 1) 1
+
+/-- `event_are_all_children_complete`: every event reachable through `event_children` has status `completed`
+    (the first argument is kept for the callers' sake; the traversal brings its own budget). -/
+def allChildrenComplete (w : World) (_fuel : Nat) (e : EId) : Bool :=
+  allDoneFrom w (walkBudget w + (w.ev e).children.length + 1) [e] []
 
 /-- whole tree done, as the property statements define it: all results terminal and all descendants
     complete (used by the monitors, not by the code). -/
